@@ -56,6 +56,15 @@ def _not_valid(framing, data):
     assume(lnot(bad))
 
 
+def raised_in_decode(e):
+    tb = e.__traceback__
+    while tb is not None:
+        if tb.tb_frame.f_code.co_name == "processIncomingPacket":
+            return True
+        tb = tb.tb_next
+    return False
+
+
 def make_fault(framing, retries, roe, roi, ncalls, gfc=3):
     def fault(ch: bytes, u: bytes, v: bytes, g: bytes) -> bool:
         import socket
@@ -129,7 +138,9 @@ def make_fault(framing, retries, roe, roi, ncalls, gfc=3):
         try:
             got = cl.execute(req)
         except Exception as e:
-            known("KF-client-raises-on-garbage-reply", framing in ("ascii", "binary", "rtu", "tcp"))
+            # the listed finding is about exceptions raised while the received bytes are framed/decoded
+            # (framer.processIncomingPacket inside execute); an exception from anywhere else is not covered by it
+            known("KF-client-raises-on-garbage-reply", raised_in_decode(e))
             explain("execute raised %s: %s", type(e).__name__, e)
             return False
         if len(cl.sent) > 1 + retries:
@@ -251,6 +262,97 @@ def make_peerclose(framing, retries):
     return peerclose
 
 
+def make_realtcp(glen, eof):
+    """the REAL ModbusTcpClient (connect/_send/_recv with its select/deadline loop) over a fake socket: the reply to the
+    first request is ANY glen bytes, then silence (or end-of-stream); asserted as in fault.*: the call returns an
+    error object or a response, never raises, and a following transaction over a healthy server returns its reply"""
+    def realtcp(g: bytes, u: int, v: bytes) -> bool:
+        import pymodbus.client.sync as CS
+        import pymodbus.factory as F
+        assume(len(g) == glen and len(v) == 2)
+        assume(1 <= u <= 247)
+        now = {"t": 1000}
+        made = []
+
+        def clock():
+            now["t"] += 1                       # every observation of the clock advances it (timeout is 3)
+            return now["t"]
+
+        class Sock(object):
+            def __init__(self, healthy):
+                self.healthy = healthy
+                self.pending = b""
+                self.eof = False
+                self.closed = False
+                made.append(self)
+
+            def setblocking(self, f):
+                pass
+
+            def settimeout(self, t):
+                pass
+
+            def send(self, data):
+                if self.closed:
+                    raise OSError("send on a closed socket")
+                if self.healthy:
+                    self.pending = self.pending + adu.ref_adu("tcp", bytes([3, 2, v[0], v[1]]), u, bytes([data[0], data[1]]))
+                else:
+                    self.pending = g
+                    self.healthy = True         # only the first reply is garbage
+                    self.eof = eof
+                return len(data)
+
+            def recv(self, n):
+                if n < 0:
+                    raise ValueError("negative buffersize in recv")
+                out, self.pending = self.pending[:n], self.pending[n:]
+                return out
+
+            def close(self):
+                self.closed = True
+
+        def fake_select(r, w, x, t=None):
+            s = r[0]
+            if len(s.pending) > 0 or s.eof:
+                return ([s], [], [])
+            return ([], [], [])
+        old = (CS.time.time, CS.select.select, CS.socket.create_connection)
+        cl = CS.ModbusTcpClient("h", timeout=3)
+        cl.socket = Sock(False)
+        CS.time.time, CS.select.select = clock, fake_select
+        CS.socket.create_connection = lambda *a, **k: Sock(True)
+        try:
+            req = F.ReadHoldingRegistersRequest(0, 1)
+            req.unit_id = u
+            try:
+                got = cl.execute(req)
+            except Exception as e:
+                known("KF-client-raises-on-garbage-reply", raised_in_decode(e))
+                explain("execute raised %s: %s", type(e).__name__, e)
+                return False
+            if not (is_error_object(got) or hasattr(got, "function_code")):
+                return False
+            if len(made) == 1 and (eof or len(made[0].pending) > 0):
+                # the connection was kept although it is at end-of-stream / still holds unread garbage: what the next
+                # call sees there is KF-client-keeps-dead-connection... / C08's subject; recovery is judged on clean ones
+                return True
+            req2 = F.ReadHoldingRegistersRequest(1, 1)
+            req2.unit_id = u
+            try:
+                got2 = cl.execute(req2)
+            except Exception as e:
+                explain("follow-up transaction raised %s", type(e).__name__)
+                return False
+            if not hasattr(got2, "registers") or is_error_object(got2):
+                explain("follow-up transaction returned %r", got2)
+                return False
+            return same(list(got2.registers), [v[0] * 256 + v[1]], "follow-up reply")
+        finally:
+            CS.time.time, CS.select.select, CS.socket.create_connection = old
+    return realtcp
+
+
 def deadline_tcp(steps: bytes) -> bool:
     """ModbusTcpClient._recv deadline loop with a symbolic clock and a socket that never delivers"""
     import pymodbus.client.sync as CS
@@ -326,6 +428,9 @@ def obligations(tier):
                            contracts=contracts[framing], lemmas=lem[framing],
                            findings=("KF-client-keeps-dead-connection-after-truncated-reply",),
                            bounds="%s client over a connection-oriented transport, retries=%d: the peer closes after k bytes of the reply (k symbolic, 0..len-1); reads on that connection then return nothing; a connection opened after client.close() is healthy; follow-up transaction must return its reply" % (framing, retries)))
+    for glen, eof in (((8, False), (9, True)) if tier == "quick" else ((8, False), (8, True), (9, False), (9, True), (12, False), (7, True))):
+        out.append(Obl("realtcp.g%d.%s" % (glen, "eof" if eof else "silence"), make_realtcp(glen, eof), timeout=T,
+                       bounds="real ModbusTcpClient (connect, _send, _recv with its select/deadline loop, clock stub advancing 1 s per observation) over a fake socket: the first reply is ANY %d bytes followed by %s; then a healthy server" % (glen, "end-of-stream" if eof else "silence")))
     out.append(Obl("deadline.tcp", deadline_tcp, timeout=T,
                    bounds="ModbusTcpClient._recv(8), timeout 4 s, silent socket, clock advancing by timeout/4 + a symbolic extra (12 symbolic steps)"))
     return out
